@@ -84,7 +84,7 @@ def mutate(rng, doc, version):
                         "target", "drop-el", "dup-name", "nonstring-name", "type", "grow",
                         "elements-kind", "retarget-any", "hex-resize", "hex-resize",
                         "unicode-name", "root-named-element", "nonfinite-number",
-                        "x509-unknown-signature-oid"])
+                        "x509-unknown-signature-oid", "certified-by-another-kind"])
         els = d.get("elements")
         ok_els = isinstance(els, list) and els and all(isinstance(e, dict) for e in els)
         if k == "top-field":
@@ -198,6 +198,16 @@ def mutate(rng, doc, version):
             e = rng.choice(els)
             e["signed_by"] = e.get("name")
             labels.append("self-signed")
+        elif k == "certified-by-another-kind" and ok_els and len(els) >= 2:
+            # an element whose certifier is an element of a kind that certifies nothing (a
+            # quote, an attestation key vouching for a certificate ...) or of another kind
+            # than the one its own kind expects; the certifier itself stays what it was
+            e = rng.choice(els)
+            others = [x for x in els if x is not e and x.get("type") != e.get("type") and
+                      x.get("signed_by") != e.get("name")]
+            if others:
+                e["signed_by"] = rng.choice(others).get("name")
+                labels.append("certified-by-another-kind")
         elif k == "dangling" and ok_els:
             rng.choice(els)["signed_by"] = rng.choice(["nobody", "", "Root", 5, None])
             labels.append("dangling-signer")
@@ -448,6 +458,18 @@ def run_case(acc, steps, cseed, tmpdir, HSMCertificateRoot, X509):
                                (d2t, 2, "genuine-all-targets")):
         run_doc(acc, steps, base, [lab], version, root, tmpdir,
                 {"seed": cseed, "which": lab})
+    # a chain whose last certificate - valid, properly issued - holds a key that is not a
+    # P-256 one: the key element below it gets a verdict, like anything else
+    if rng.random() < 0.3:
+        from cryptography.hazmat.primitives.asymmetric import ec as _ec
+        m3 = g2.build(rng, leaf_curve=rng.choice([_ec.SECP384R1(), _ec.SECP256K1(),
+                                                  _ec.SECP521R1()]))
+        d3 = g2.to_doc(m3, "uncompressed")
+        root3 = dict(root)
+        root3[2] = X509.from_pem(g2.pem(m3.root_cert), "sgx_root", "sgx_root")
+        run_doc(acc, steps, d3, ["last-certificate-holds-a-key-of-another-curve"], 2, root3,
+                tmpdir, {"seed": cseed, "which": "other-curve"})
+        acc.count("chains_whose_last_certificate_holds_a_key_of_another_curve")
     # a QE report body that carries trailing bytes covered by its signature, and an
     # attestation key given in compressed form: both load and validate; saving must
     # not change what was signed
